@@ -117,6 +117,10 @@ def insertNat (x : Nat) : List Nat → List Nat
   | [] => [x]
   | y :: ys => if x < y then x :: y :: ys else if x = y then y :: ys else y :: insertNat x ys
 
+/-- A changelog in ascending height order. -/
+def sortLog (l : Snapshot.Log Nat) : List (Nat × Option Nat) :=
+  l.mergeSort (fun a b => decide (a.1 ≤ b.1))
+
 open Paginate in
 def obsOf (m : MState) : Args :=
   match m.w with
@@ -169,7 +173,11 @@ def obsOf (m : MState) : Args :=
      ("ph", joinC ph), ("votes", joinC votes), ("pvotes", joinC pvotes), ("voters", members), ("pvoters", joinC pvoters),
      ("members", members), ("gtotal", toString (Cw4Group.queryTotalWeight g none)),
      ("gadmin", optStrStr (Cw4Group.queryAdmin g)), ("ghooks", joinC (Cw4Group.queryHooks g)),
-     ("snap", joinC snap), ("bank", joinC bank), ("cw20", joinC cw20), ("allow", joinC allow)]
+     ("snap", joinC snap), ("bank", joinC bank), ("cw20", joinC cw20), ("allow", joinC allow),
+     -- raw dumps of the group's snapshot changelogs
+     ("gmlog", joinC ((sortedEntries strLt g.members.log).flatMap fun (a, l) =>
+        (sortLog l).map fun e => s!"{a}@{e.1}:{optNatStr e.2}")),
+     ("gtlog", joinC ((sortLog g.total.log).map fun e => s!"{e.1}:{optNatStr e.2}"))]
 
 def err (m : MState) (tag : String) : MState × StepResult := (m, { ok := some false, tag := tag })
 
@@ -300,6 +308,128 @@ def stepOp (m : MState) (toks : List String) : MState × StepResult :=
       | .ok v => (m, { ok := some true, out := [("result", v)], tag := s!"q.{kind}.ok" })
       | .error e => err m s!"q.{kind}.{e}"
   | _ => (m, { ok := none, tag := "unknown" })
+
+/-! ## Re-synchronisation -/
+
+def rsParseStatus : String → Option Status
+  | "pending" => some .pending | "open" => some .open | "rejected" => some .rejected
+  | "passed" => some .passed | "executed" => some .executed | _ => none
+
+def rsOptNatOf (s : String) : Option Nat := if s == "-" then none else s.toNat?
+
+/-- Inverse of `renderDep`: `some none` for `-`. -/
+def rsParseDep (s : String) : Option (Option Deposit) :=
+  if s == "-" then some none else
+  match s.splitOn ":" with
+  | [k, d, amt, r] =>
+    if k != "native" && k != "cw20" then none else
+    amt.toNat?.map fun a => some ⟨a, d, k == "cw20", r == "1"⟩
+  | _ => none
+
+/-- `id:status:y.n.a.v:start` (a missing proposal, `id:-`, gives `none`) -/
+def rsParseRawRec (s : String) : Option (Nat × Status × Votes × Nat) :=
+  match s.splitOn ":" with
+  | [id, st, v, h] =>
+    match v.splitOn "." with
+    | [y, n, a, ve] => do
+      let id ← id.toNat?; let st ← rsParseStatus st; let h ← h.toNat?
+      let y ← y.toNat?; let n ← n.toNat?; let a ← a.toNat?; let ve ← ve.toNat?
+      pure (id, st, ⟨y, n, a, ve⟩, h)
+    | _ => none
+  | _ => none
+
+/-- The stored proposal behind a stored record and the proposal's view `id|status|expires|THR|proposer|DEP|title|desc|MSGS`. -/
+def proposalOf (r : Nat × Status × Votes × Nat) (view : String) : Option Proposal :=
+  match view.splitOn "|" with
+  | [_, _, exp, thr, proposer, dep, title, desc, msgs] => do
+    let exp ← parseExp exp
+    let dep ← rsParseDep dep
+    pure { title, description := desc, startHeight := r.2.2.2, expires := exp,
+           msgs := (if msgs == "" then [] else msgs.splitOn ";").map parseMsg, status := r.2.1,
+           threshold := parseThr thr, totalWeight := lastNatOf thr, votes := r.2.2.1, proposer, deposit := dep }
+  | _ => none
+where lastNatOf (s : String) : Nat := ((s.splitOn ":").getLast?.bind String.toNat?).getD 0
+
+/-- `addr@h:old` -/
+def rsParseMlog (e : String) : Option (String × Nat × Option Nat) :=
+  match e.splitOn "@" with
+  | [a, r] =>
+    match r.splitOn ":" with
+    | [h, o] => h.toNat?.map fun h => (a, h, rsOptNatOf o)
+    | _ => none
+  | _ => none
+
+/-- The multisig: configuration (`cfg`), every stored proposal (`raw` + its view in `pprops`; a stored proposal
+whose view fails keeps the old model's text, else the state cannot be rebuilt), every ballot (`votes`); the
+counter is the harness's own count of proposals (the length of `raw`).  The group: admin, hooks, members,
+total, both changelogs (`gmlog`, `gtlog`: raw dumps).  Bank and deposit-token balances of the universe,
+the allowances towards the multisig (`allow`, amounts; the scenario never sets an expiry).  Kept: block,
+header data, balances / allowances of anybody else, the token's constant parts, the ghost event log. -/
+def resyncOf (m : MState) (o : Args) : Option MState :=
+  if (o.get "uninit").isSome then some { m with w := none } else do
+  let old := m.w
+  -- configuration
+  let cfg ← match (o.str "cfg").splitOn "|" with
+    | [thr, period, group, ex, dep] => do
+      let period ← parseDur period
+      let dep ← rsParseDep dep
+      pure ({ threshold := parseThr thr, maxVotingPeriod := period, group, executor := parseExecutor ex, deposit := dep } : Config)
+    | _ => none
+  -- proposals
+  let raws := o.list "raw"
+  let views := o.list "pprops"
+  let props ← raws.foldlM (fun (acc : AMap Nat Proposal) e =>
+    if e.endsWith ":-" then some acc else do
+    let r ← rsParseRawRec e
+    let view := (views.find? fun v => v.startsWith s!"{r.1}|").getD ""
+    match proposalOf r view with
+    | some p => pure (acc.set r.1 p)
+    | none =>
+      -- the view failed (`!err`): text, expiry, threshold from the old model, stored part from `raw`
+      let p ← (old.bind fun w => w.flex.core.proposals.get? r.1)
+      pure (acc.set r.1 { p with status := r.2.1, votes := r.2.2.1, startHeight := r.2.2.2 })) []
+  let ballots : AMap Nat (AMap Addr Ballot) := (o.list "votes").foldl (fun acc e =>
+    match e.splitOn ":" with
+    | [id, a, v, w] =>
+      match id.toNat?, Vote.parse v, w.toNat? with
+      | some id, some v, some w => acc.set id (((acc.get? id).getD []).set a ⟨w, v⟩)
+      | _, _, _ => acc
+    | _ => acc) []
+  if (o.list "votes").any (· == "!err") then none
+  let flex : State := { cfg, core := ⟨raws.length, props, ballots⟩ }
+  -- group
+  if o.str "members" == "!err" || o.str "ghooks" == "!err" then none
+  let gtotal ← (o.str "gtotal").toNat?
+  let gmlog : AMap Addr (Snapshot.Log Nat) := ((o.list "gmlog").filterMap rsParseMlog).foldl (fun acc (a, h, old) =>
+    acc.set a ((h, old) :: (acc.get? a).getD [])) []
+  let gtlog : Snapshot.Log Nat := ((o.list "gtlog").filterMap fun e =>
+    match e.splitOn ":" with
+    | [h, x] => h.toNat?.map fun h => (h, rsOptNatOf x)
+    | _ => none).reverse
+  let group : Cw4Group.State :=
+    { admin := o.optStr "gadmin", hooks := o.list "ghooks",
+      members := { cur := (o.list "members").foldl (fun acc e => let p := parsePair e; acc.set p.1 p.2) [], log := gmlog },
+      total := { cur := some gtotal, log := gtlog } }
+  -- bank, token
+  let u := actors m
+  let oldBank : AMap (Addr × String) Nat := match old with | some w => w.bank.filter (fun e => !u.contains e.1.1) | none => []
+  let bank := ((o.list "bank").flatMap parseBankRec).foldl (fun acc (k, v) => if v == 0 then acc else acc.set k v) oldBank
+  let tok0 ← old.map (·.token)
+  let balances := (o.list "cw20").foldl (fun (acc : AMap Addr Nat) e =>
+    let p := parsePair e
+    if (acc.get? p.1).getD 0 == p.2 then acc else acc.set p.1 p.2) tok0.balances
+  let (allow, allowSp) := (o.list "allow").foldl (fun (acc : AMap (Addr × Addr) Cw20.Allowance × AMap (Addr × Addr) Cw20.Allowance) e =>
+    let p := parsePair e
+    let cur := ((acc.1.get? (p.1, m.flex)).getD Cw20.Allowance.default)
+    if cur.amount == p.2 then acc
+    else (acc.1.set (p.1, m.flex) { cur with amount := p.2 }, acc.2.set (m.flex, p.1) { cur with amount := p.2 })) (tok0.allow, tok0.allowSp)
+  let token : Cw20.State := { tok0 with balances, allow, allowSp }
+  pure { m with w := some { flex, group, token, bank, self := m.flex, groupAddr := m.group, tokenAddr := m.cw20,
+                            log := match old with | some w => w.log | none => [] } }
+where parseBankRec (s : String) : List ((String × String) × Nat) :=
+  match s.splitOn ":" with
+  | [a, x, y] => [((a, "ucosm"), x.toNat?.getD 0), ((a, "uatom"), y.toNat?.getD 0)]
+  | _ => []
 
 /-! ## Monitors: the properties' own predicates, evaluated on implementation observations -/
 
@@ -858,5 +988,6 @@ def scen : Scen MState Mon where
   obs := obsOf
   monInit h := { flex := h.str "flex", cw20 := h.str "cw20", wide := h.str "wide" == "1" }
   monitor := monitorOp
+  resync := some resyncOf
 
 end CwPlus.Driver.Cw3Flex
